@@ -6,6 +6,7 @@
 //!   fst      tantivy::termdict::{TermDictionaryBuilder, TermDictionary} (fst build, TermInfo)
 //!   ooo      duplicate / out-of-order insertion into both builders must be rejected
 //!   merge    SSTable::merge, termdict::TermMerger, columnar ordinal mapping + merge_columnar
+//!   async    sstable into_stream_async / get_async over a FileHandle with reordered completions
 //!   segmerge IndexWriter::merge of 2..6 segments: merged term dictionaries / str fast field
 #[path = "c15_util/mod.rs"]
 mod util;
@@ -32,6 +33,7 @@ include!("c15_util/fst.rs");
 include!("c15_util/ooo.rs");
 include!("c15_util/merge.rs");
 include!("c15_util/segmerge.rs");
+include!("c15_util/asyncs.rs");
 
 fn main() {
     let ctx = Ctx::from_env("C15", "exploration");
@@ -39,6 +41,7 @@ fn main() {
     let mut rep = run_cases(&ctx, "ooo", ctx.scale(200, 10_000) as u64, ooo_case);
     rep.merge(run_cases(&ctx, "merge", ctx.scale(80, 6_000) as u64, merge_case));
     rep.merge(run_cases(&ctx, "segmerge", ctx.scale(20, 500) as u64, segmerge_case));
+    rep.merge(run_cases(&ctx, "async", ctx.scale(80, 6_000) as u64, async_case));
     rep.merge(run_cases(&ctx, "fst", ctx.scale(120, 12_000) as u64, |c, r, rep| {
         fst_case(c, r, rep, !ctx.quick())
     }));
@@ -53,7 +56,8 @@ fn main() {
          conversions, ranges, prefix ranges and automaton searches; each answer is compared with a \
          BTreeMap. Non-trivial: the dictionary has >= 2 sstable blocks (sst/merge), > 256 terms \
          i.e. >= 2 term-info blocks (fst), the bad key was offered to a writer that had already \
-         flushed a block (ooo), or >= 2 inputs shared at least one key (merges). Distinct = \
+         flushed a block (ooo), >= 2 inputs shared at least one key (merges), or an async search read \
+         >= 2 non-adjacent blocks whose reads completed out of submission order (async). Distinct = \
          distinct (stream, value type, key class, block length, key count, block count) tuples.",
         ctx.scale(100, 5_000),
         &[
